@@ -270,6 +270,9 @@ def decode_arg(job, a):
         return base64.b64decode(a["v"])
     if k == "date":
         return datetime.date.fromisoformat(a["v"])
+    if k == "date_list_shared":
+        cache = {}
+        return [cache.setdefault(x, datetime.date.fromisoformat(x)) for x in a["v"]]   # equal elements are the SAME object
     if k == "datetime":
         return datetime.datetime.fromisoformat(a["v"].replace("Z", "+00:00"))
     if k == "model":
